@@ -1,6 +1,7 @@
 -- FAMILIES: u32s=TF.Drv.U32s.u32s
 import TF.Drv.Proto
 import TF.Model.U32s
+import TF.Gen.U32sLoops
 /-! driver handler for the family `u32s` (C19). Operands: `N` then limb lists (little endian). -/
 namespace TF.Drv.U32s
 open TF.Proto TF.U32s
@@ -16,24 +17,46 @@ def okE : Option (List Nat) → String
 def fmtOrd : Ordering → String
   | .lt => "lt" | .eq => "eq" | .gt => "gt"
 
+/-! The limb loops are **also regenerated from `u32s.rs`** on every run (`TF/Gen/U32sLoops.lean`, `TF.Gen.Loops.u32s_*`,
+    written by tools/rs2lean_loops.py): the generated function computes the wrapped (release-arithmetic) result and its
+    `_ok` companion says whether every `assert!` held and every index was in range, i.e. whether the Rust code panics.
+    The handler evaluates both the regenerated definition and the hand model; a difference is printed instead of the
+    value, so a translator bug shows up as a disagreement with the implementation on the unchanged tree. -/
+
+/-- regenerated value + `_ok` predicate -> "exact or panic" -/
+def genPanic (ok : Bool) (v : List Nat) : Option (List Nat) := if ok then some v else none
+
+def both (gen model : Option (List Nat)) : String :=
+  if gen == model then okL model else "GEN-MISMATCH gen=" ++ okL gen ++ " model=" ++ okL model
+
+/-- the regenerated (private) `get_bit` / `set_bit` against the hand model, for every bit position of the operand -/
+def bitsAgree (n : Nat) (a : List Nat) : Bool :=
+  (List.range (32 * n)).all fun i =>
+    (genPanic (TF.Gen.Loops.u32s_get_bit_ok n a i) [if TF.Gen.Loops.u32s_get_bit n a i then 1 else 0]
+      == (getBit a i).map fun b => [if b then 1 else 0]) &&
+    (genPanic (TF.Gen.Loops.u32s_set_bit_ok n a i true) (TF.Gen.Loops.u32s_set_bit n a i true) == setBit a i true) &&
+    (genPanic (TF.Gen.Loops.u32s_set_bit_ok n a i false) (TF.Gen.Loops.u32s_set_bit n a i false) == setBit a i false)
+
 /-- operand of width `n` -/
 def limbs (n : Nat) (a : Arg) : Option (List Nat) := do
   let l ← a.natList?
   if wf n l then some l else none
 
 def u32s : Handler
-  | "add", [.nat n, x, y] => do let a ← limbs n x; let b ← limbs n y; pure (okL (add a b))
-  | "sub", [.nat n, x, y] => do let a ← limbs n x; let b ← limbs n y; pure (okL (sub a b))
-  | "mul", [.nat n, x, y] => do let a ← limbs n x; let b ← limbs n y; pure (okL (mul a b))
+  | "add", [.nat n, x, y] => do let a ← limbs n x; let b ← limbs n y; pure (both (genPanic (TF.Gen.Loops.u32s_add_ok n a b) (TF.Gen.Loops.u32s_add n a b)) (add a b))
+  | "sub", [.nat n, x, y] => do let a ← limbs n x; let b ← limbs n y; pure (both (genPanic (TF.Gen.Loops.u32s_sub_ok n a b) (TF.Gen.Loops.u32s_sub n a b)) (sub a b))
+  | "mul", [.nat n, x, y] => do let a ← limbs n x; let b ← limbs n y; pure (match TF.Gen.Loops.u32s_mul n a b with
+        | none => "GEN-OUT-OF-FUEL"
+        | some r => both (genPanic (TF.Gen.Loops.u32s_mul_ok n a b) r) (mul a b))
   | "div", [.nat n, x, y] => do let a ← limbs n x; let b ← limbs n y; pure (okL (div a b))
   | "rem", [.nat n, x, y] => do let a ← limbs n x; let b ← limbs n y; pure (okL (rem a b))
   | "rem_div", [.nat n, x, y] => do
       let a ← limbs n x; let b ← limbs n y
-      pure (match remDiv a b with
+      pure (if !(bitsAgree n a) then "GEN-MISMATCH get_bit/set_bit" else match remDiv a b with
         | some (q, r) => s!"ok:({fmtList q};{fmtList r})"
         | none => "panic")
-  | "mul_two", [.nat n, x] => do let a ← limbs n x; pure (okL (mulTwo a))
-  | "div_two", [.nat n, x] => do let a ← limbs n x; pure (okL (divTwo a))
+  | "mul_two", [.nat n, x] => do let a ← limbs n x; pure (both (genPanic (TF.Gen.Loops.u32s_mul_two_ok n a) (TF.Gen.Loops.u32s_mul_two n a)) (mulTwo a))
+  | "div_two", [.nat n, x] => do let a ← limbs n x; pure (both (genPanic (TF.Gen.Loops.u32s_div_two_ok n a) (TF.Gen.Loops.u32s_div_two n a)) (divTwo a))
   | "cmp", [.nat n, x, y] => do let a ← limbs n x; let b ← limbs n y; pure ("ok:" ++ fmtOrd (cmp a b))
   | "eq", [.nat n, x, y] => do let a ← limbs n x; let b ← limbs n y; pure ("ok:" ++ fmtBool (a == b))
   | "sum", [.nat n, xs] => do
